@@ -1,6 +1,8 @@
 package plans
 
 import (
+	"strings"
+	"sort"
 	"math/rand"
 
 	"verif/internal/abs"
@@ -75,7 +77,7 @@ func findStage(fname string, r *rand.Rand, n int, special bool) (core.Stage, err
 
 // absentTargets: schema-valid paths that hold no data in t.
 func absentTargets(f *fx.Fixture, t *abs.Tree, g *gen.G) []abs.Path {
-	var out []abs.Path
+	var out, near []abs.Path
 	for _, at := range gen.Nodes(t) {
 		if len(at) > 0 && !at.IsEntry() && f.DS.Node(at.SPath()).Kind == "list" {
 			n := f.DS.Node(at.SPath())
@@ -93,6 +95,9 @@ func absentTargets(f *fx.Fixture, t *abs.Tree, g *gen.G) []abs.Path {
 			if key != nil {
 				out = append(out, at.Child(abs.E(at[len(at)-1].N, key...)))
 			}
+			// keys made of the components of the entries that are there (a tuple that shares its
+			// first or last component with an existing entry), and neighbours from the vocabulary
+			near = append(near, nearKeys(f, t, at, n)...)
 			continue
 		}
 		if len(at) > 0 && !at.IsEntry() {
@@ -119,6 +124,53 @@ func absentTargets(f *fx.Fixture, t *abs.Tree, g *gen.G) []abs.Path {
 		g.R.Shuffle(len(out), func(a, b int) { out[a], out[b] = out[b], out[a] })
 		out = out[:6]
 	}
+	if len(near) > 8 {
+		g.R.Shuffle(len(near), func(a, b int) { near[a], near[b] = near[b], near[a] })
+		near = near[:8]
+	}
+	return append(out, near...)
+}
+
+// nearKeys: key tuples that are not in the list but are built from the components of the
+// entries that are, or from the other values of each component's vocabulary.
+func nearKeys(f *fx.Fixture, t *abs.Tree, lp abs.Path, n *abs.SNode) []abs.Path {
+	have := map[string]bool{}
+	comps := make([]map[string]bool, len(n.Keys))
+	for i := range comps {
+		comps[i] = map[string]bool{}
+		kn := f.DS.Node(append(append([]string{}, n.SP...), n.Keys[i]))
+		if kn.Type == "enumeration" {
+			for _, e := range kn.Enums {
+				comps[i][e.L] = true
+			}
+		}
+		for _, v := range gen.KeyVocab[kn.Type] {
+			comps[i][v] = true
+		}
+	}
+	for _, key := range t.OrdAt(lp) {
+		have[strings.Join(key, "\x00")] = true
+		for i, k := range key {
+			if i < len(comps) {
+				comps[i][k] = true
+			}
+		}
+	}
+	var lists [][]string
+	for i := range comps {
+		var vs []string
+		for v := range comps[i] {
+			vs = append(vs, v)
+		}
+		sort.Strings(vs)
+		lists = append(lists, vs)
+	}
+	var out []abs.Path
+	for _, key := range product(lists) {
+		if !have[strings.Join(key, "\x00")] {
+			out = append(out, lp.Child(abs.E(lp[len(lp)-1].N, key...)))
+		}
+	}
 	return out
 }
 
@@ -137,7 +189,7 @@ func planC08(tier string, seed int64) (*core.Plan, error) {
 		NonTrivial: func(r core.Rec) bool { return r["chk"] == "find" },
 		Assumptions: []string{"path texts are rendered by the harness with strict percent-encoding (everything outside ALPHA DIGIT - . _ ~)", "an unset leaf of an existing node: outcome not stated by the property (admitted either way)"},
 	}
-	for _, fname := range []string{"S0", "S1", "S2", "P0"} {
+	for _, fname := range []string{"S0", "S1", "S2", "P0", "S7"} {
 		st, err := findStage(fname, r, n/4, false)
 		if err != nil {
 			return nil, err
